@@ -59,6 +59,13 @@ impl Profile {
     pub fn for_prop(prop: &str, thorough: bool) -> Self {
         let mut p = Self::base(thorough);
         match prop {
+            "C01" => {
+                p.hooks_pm = 750;
+                p.retries_pm = 750;
+                p.faults_pm = 900;
+                p.parser_err_pm = 200;
+                p.undefined_pm = 500;
+            }
             "C03" => {
                 p.parser_err_pm = 350;
                 p.lazy_parser_pm = 500;
@@ -257,6 +264,9 @@ pub fn gen_plan(seed: u64, prof: &Profile) -> Plan {
             if retries_on && c.r.chance(1, 8) {
                 let d = retry_delay && c.r.chance(1, 2);
                 rtags.push(gen_retry_tag(c.r, d, max_retries));
+            }
+            if c.r.chance(1, 10) {
+                rtags.push("allow.skipped".to_owned());
             }
             let nrbg = c.r.usize(0, max_bg);
             let rbg = gen_steps(&mut c, &format!("{rid}bg"), nrbg);
